@@ -178,8 +178,15 @@ def r7_2(ctx: Ctx) -> None:
     # UDP frame: ports are read from the UDP header
     cases.append(("dst port on a UDP frame", {"self.action": "PERMIT", "self.dst_port": 53, "frame.tcp": None, "frame.udp": "UDPHDR",
                                               "frame.udp.src_port": 5, "frame.udp.dst_port": 53, "frame.ip.protocol": "udp"}, (True, True)))
-    cases.append(("port rule on a frame without ports", {"self.action": "PERMIT", "self.dst_port": 53, "frame.tcp": None, "frame.udp": None,
-                                                         "frame.ip.protocol": "icmp"}, (False, False)))
+    for pk in ("self.dst_port", "self.src_port"):
+        cases.append((f"{pk[5:]} rule on a frame without ports", {"self.action": "PERMIT", pk: 53, "frame.tcp": None, "frame.udp": None,
+                                                                 "frame.ip.protocol": "icmp"}, (False, False)))
+        cases.append((f"{pk[5:]} DENY rule on a frame without ports", {"self.action": "DENY", pk: 53, "frame.tcp": None, "frame.udp": None,
+                                                                      "frame.ip.protocol": "icmp"}, (False, False)))
+    cases.append(("src port on a UDP frame", {"self.action": "PERMIT", "self.src_port": 5, "frame.tcp": None, "frame.udp": "UDPHDR",
+                                              "frame.udp.src_port": 5, "frame.udp.dst_port": 53, "frame.ip.protocol": "udp"}, (True, True)))
+    cases.append(("src port on a UDP frame, other port", {"self.action": "PERMIT", "self.src_port": 6, "frame.tcp": None, "frame.udp": "UDPHDR",
+                                                          "frame.udp.src_port": 5, "frame.udp.dst_port": 6, "frame.ip.protocol": "udp"}, (False, False)))
     # masked ranges: the helper's answer decides
     for side in ("src", "dst"):
         for ans in (True, False):
